@@ -50,6 +50,9 @@ def cases(tier: str, seed: int) -> List[Dict[str, Any]]:
             for op in OPS:
                 out.append({"kind": "seq", "tag": tag, "depth": depth, "first": op, "maxlen": MAXLEN[tier]})
             out.append({"kind": "bfs", "tag": tag, "depth": depth})
+    # object lifetimes: many short-lived parameters of ONE shape but different tags / depths pass through the
+    # optimizers in one fresh process (a later parameter may be allocated at a freed one's address)
+    out.append({"kind": "lifetime", "tag": "weight", "depth": None, "fresh": True})
     return out
 
 
@@ -305,6 +308,39 @@ def run_case(case: Dict[str, Any]) -> Dict[str, Any]:
             return None
         return r
 
+    if case["kind"] == "lifetime":
+        import copy
+        import gc
+        import pickle
+
+        import torch
+        import unit_scaling as uu
+        from unit_scaling import optim
+
+        sgd_fn = optim.lr_scale_func_sgd("to_output_scale")  # ONE rule object for the whole history
+        for rep in range(2):
+            for tg in TAGS:
+                for dp in DEPTHS:
+                    for hist in ("fresh", "copy", "copy_pickle"):
+                        # a BATCH of short-lived parameters (address reuse by at least one later parameter is then
+                        # practically certain, whatever the allocator state of the process)
+                        ps = [uu.Parameter(torch.randn(4, 3), tg, dp) for _ in range(48)]
+                        if hist != "fresh":
+                            ps = [copy.deepcopy(q) for q in ps]
+                        if hist == "copy_pickle":
+                            ps = [pickle.loads(pickle.dumps(copy.deepcopy(q))) for q in ps]
+                        lr0 = _lr0(tg, dp)
+                        for nm, fn in (("adam", optim.lr_scale_func_adam), ("sgd", sgd_fn)):
+                            gs = optim.scaled_parameters(ps, fn, lr=1.0)
+                            steps += len(ps)
+                            wrong = [float(g["lr"]) for g in gs if abs(float(g["lr"]) - lr0[nm]) > 1e-12 * lr0[nm]]
+                            if wrong:
+                                key = f"lifetime|lr_scale_{nm}|wrong_for_a_later_parameter"
+                                viol.setdefault(key, {"key": key, "msg": f"tag={tg} depth={dp} ({hist}, pass {rep}): {len(wrong)} of {len(ps)} parameters get lr={wrong[0]!r}, expected {lr0[nm]!r}"})
+                            del gs
+                        del ps
+                        gc.collect()
+        return {"violations": list(viol.values())[:3], "steps": steps, "n_states": steps, "nontrivial": True, "outcome": f"lifetime:{'ok' if not viol else 'bad'}"}
     if case["kind"] == "seq":
         first = case["first"]
         if first is None:
